@@ -27,82 +27,118 @@ Proof.
   f_equal. apply IH. intros d w Hw. apply H. apply (pick_subset _ _ _ _ E _ Hw).
 Qed.
 
-(* functions that reach no variable *)
-Definition funcs_pure (p : pkg) : Prop :=
-  forall f fuel, fdeps p fuel f = [].
-
 Lemma mem_true_in l d : mem l d = true -> In d l.
 Proof.
   unfold mem. intros H. apply existsb_exists in H. destruct H as [x [Hx E]]. apply N.eqb_eq in E. subst. exact Hx.
 Qed.
 
-(* when the functions referred to by initialisers reach no variable, a variable
-   is ready for Go exactly when it is ready for Scriggo *)
+(* ---- the levels of funcVarDeps reach what the specification reaches ---- *)
+
+Lemma forallb_same_elements {A} (P : A -> bool) l1 l2 :
+  (forall x, In x l1 <-> In x l2) -> forallb P l1 = forallb P l2.
+Proof.
+  intros H. destruct (forallb P l1) eqn:E1; symmetry.
+  - apply forallb_forall. intros x Hx. apply (proj1 (forallb_forall P l1) E1). apply H. exact Hx.
+  - destruct (forallb P l2) eqn:E2; [|reflexivity].
+    rewrite <- E1. symmetry. apply forallb_forall. intros x Hx.
+    apply (proj1 (forallb_forall P l2) E2). apply H. exact Hx.
+Qed.
+
+Lemma forallb_flat_map {A B} (P : B -> bool) (f : A -> list B) l :
+  forallb P (flat_map f l) = forallb (fun a => forallb P (f a)) l.
+Proof.
+  induction l as [|a l IH]; [reflexivity|]. cbn [flat_map forallb]. rewrite forallb_app, IH. reflexivity.
+Qed.
+
+Lemma fdeps_unfold p k f :
+  fdeps p k f = var_refs p f ++ match k with O => [] | S k' => flat_map (fdeps p k') (func_refs p f) end.
+Proof. destruct k; reflexivity. Qed.
+
+(* the variables referred to by the functions of the levels 0..k from fs are
+   those the specification finds from some function of fs with fuel k *)
+Lemma freach_fdeps p : forall k fs d,
+  In d (flat_map (var_refs p) (freach p k fs)) <-> exists f, In f fs /\ In d (fdeps p k f).
+Proof.
+  induction k as [|k IH]; intros fs d.
+  - cbn [freach]. rewrite app_nil_r. rewrite in_flat_map. split.
+    + intros [f [Hf Hd]]. exists f. split; [exact Hf|]. rewrite fdeps_unfold, app_nil_r. exact Hd.
+    + intros [f [Hf Hd]]. exists f. split; [exact Hf|]. rewrite fdeps_unfold, app_nil_r in Hd. exact Hd.
+  - cbn [freach]. rewrite flat_map_app, in_app_iff, IH. split.
+    + intros [H|[g [Hg Hd]]].
+      * apply in_flat_map in H. destruct H as [f [Hf Hd]]. exists f. split; [exact Hf|].
+        rewrite fdeps_unfold. apply in_or_app. left. exact Hd.
+      * apply in_flat_map in Hg. destruct Hg as [f [Hf Hg]]. exists f. split; [exact Hf|].
+        rewrite fdeps_unfold. apply in_or_app. right. apply in_flat_map. exists g. split; assumption.
+    + intros [f [Hf Hd]]. rewrite fdeps_unfold in Hd. apply in_app_or in Hd. destruct Hd as [Hd|Hd].
+      * left. apply in_flat_map. exists f. split; assumption.
+      * right. apply in_flat_map in Hd. destruct Hd as [g [Hg Hd]]. exists g. split; [|exact Hd].
+        apply in_flat_map. exists f. split; assumption.
+Qed.
+
+Lemma func_var_deps_spec p f d :
+  In d (func_var_deps p f) <-> In d (fdeps p (length (funcs p)) f).
+Proof.
+  unfold func_var_deps. rewrite freach_fdeps. split.
+  - intros [g [[<-|[]] Hd]]. exact Hd.
+  - intros Hd. exists f. split; [left; reflexivity|exact Hd].
+Qed.
+
+(* a variable is ready for Scriggo exactly when it is ready for Go *)
 Lemma ready_agree p done v :
-  (forall f, In f (filter (is_func p) (snd v)) -> fdeps p (length (funcs p)) f = []) ->
   (forall d, In d (snd v) -> is_var p d = true \/ is_func p d = true) ->
   (forall d, is_var p d = true -> is_func p d = false) ->
-  (forall d, In d done -> is_var p d = true) ->
   go_ready p done v = sc_ready p done v.
 Proof.
-  intros Hpure Hdecl Hdisj Hdone. unfold go_ready, sc_ready, go_deps.
-  assert (E : flat_map (fdeps p (length (funcs p))) (filter (is_func p) (snd v)) = []).
-  { induction (filter (is_func p) (snd v)) as [|f r IH]; [reflexivity|]. cbn [flat_map].
-    rewrite Hpure by (left; reflexivity). apply IH. intros g Hg. apply Hpure. right. exact Hg. }
-  rewrite E, app_nil_r. clear E Hpure.
-  induction (snd v) as [|d r IH]; [reflexivity|]. cbn [filter forallb].
+  intros Hdecl Hdisj. unfold go_ready, sc_ready, go_deps.
+  rewrite forallb_app, forallb_flat_map.
+  induction (snd v) as [|d r IH]; [reflexivity|].
   assert (Hr : forall d0, In d0 r -> is_var p d0 = true \/ is_func p d0 = true) by (intros; apply Hdecl; right; assumption).
+  specialize (IH Hr). cbn [filter forallb].
   destruct (Hdecl d (or_introl eq_refl)) as [Hv|Hf].
-  - rewrite Hv. cbn [forallb]. rewrite (Hdisj d Hv), orb_false_r, (IH Hr). reflexivity.
-  - destruct (is_var p d) eqn:Hv.
-    + rewrite (Hdisj d Hv) in Hf. discriminate.
-    + rewrite Hf, orb_true_r. cbn [andb]. apply IH, Hr.
+  - rewrite Hv, (Hdisj d Hv). cbn [forallb]. rewrite <- IH, andb_assoc. reflexivity.
+  - destruct (is_var p d) eqn:Hv; [rewrite (Hdisj d Hv) in Hf; discriminate|].
+    rewrite Hf. cbn [forallb]. rewrite <- IH.
+    rewrite (forallb_same_elements (mem done) (func_var_deps p d) (fdeps p (length (funcs p)) d))
+      by (intros x; apply func_var_deps_spec).
+    rewrite andb_assoc, (andb_comm (forallb _ (filter _ r))), <- andb_assoc. reflexivity.
 Qed.
 
 Definition well_named (p : pkg) : Prop :=
   (forall v d, In v (vars p) -> In d (snd v) -> is_var p d = true \/ is_func p d = true) /\
   (forall d, is_var p d = true -> is_func p d = false).
 
-(* The orders agree when no function reached from an initialiser refers
-   (even indirectly) to a package-level variable. *)
-Theorem init_order_agree p :
-  well_named p ->
-  (forall v f, In v (vars p) -> In f (filter (is_func p) (snd v)) -> fdeps p (length (funcs p)) f = []) ->
-  go_order p = sc_order p.
+(* Scriggo's order of initialisation is the order of the Go specification *)
+Theorem init_order_agree p : well_named p -> go_order p = sc_order p.
 Proof.
-  intros [Hdecl Hdisj] Hpure. unfold go_order, sc_order.
-  (* generalise: done only ever holds variable names *)
+  intros [Hdecl Hdisj]. unfold go_order, sc_order.
   assert (G : forall fuel todo done,
              (forall v, In v todo -> In v (vars p)) ->
-             (forall d, In d done -> is_var p d = true) ->
              order_by (go_ready p) fuel todo done = order_by (sc_ready p) fuel todo done).
-  { induction fuel as [|k IH]; intros todo done Hsub Hdone; cbn [order_by]; [reflexivity|].
+  { induction fuel as [|k IH]; intros todo done Hsub; cbn [order_by]; [reflexivity|].
     rewrite (pick_ext (go_ready p done) (sc_ready p done) todo).
-    2:{ intros x Hx. apply ready_agree; auto.
-        - intros f Hf. apply (Hpure x f (Hsub x Hx) Hf).
-        - intros d Hd. apply (Hdecl x d (Hsub x Hx) Hd). }
+    2:{ intros x Hx. apply ready_agree; [|exact Hdisj]. intros d Hd. apply (Hdecl x d (Hsub x Hx) Hd). }
     destruct (pick (sc_ready p done) todo) as [[v rest]|] eqn:E; [|reflexivity].
-    f_equal. apply IH.
-    - intros w Hw. apply Hsub. apply (pick_subset _ _ _ _ E _ Hw).
-    - intros d [<-|Hd]; [|apply Hdone, Hd].
-      assert (Hv : In v (vars p)).
-      { apply Hsub. clear - E. revert v rest E. induction todo as [|a l IHl]; intros v rest E; cbn [pick] in E; [discriminate|].
-        destruct (sc_ready p done a); [injection E as <- <-; left; reflexivity|].
-        destruct (pick (sc_ready p done) l) as [[z r']|] eqn:E2; [|discriminate]. injection E as <- <-.
-        right. apply (IHl _ _ eq_refl). }
-      unfold is_var, mem. apply existsb_exists. exists (fst v). split; [apply in_map, Hv|apply N.eqb_refl]. }
-  apply G; [auto|intros d []].
+    f_equal. apply IH. intros w Hw. apply Hsub. apply (pick_subset _ _ _ _ E _ Hw). }
+  apply G. auto.
 Qed.
 
-(* ... and they do NOT agree in general: var a = f(); var b = g(1); func f() int { return b + 1 }
-   (names: a=1 b=2 f=10 g=11).  Scriggo initialises a first, Go initialises b first. *)
+(* the algorithm before the repair (a function always counted as resolved) did
+   NOT agree: var a = f(); var b = g(1); func f() int { return b + 1 }
+   (names: a=1 b=2 f=10 g=11): it initialised a first, Go initialises b first. *)
 Definition witness : pkg :=
   {| vars := [(1, [10]); (2, [11])]; funcs := [(10, [2]); (11, [])] |}.
 
-Lemma init_order_refuted : sc_order witness = [1; 2] /\ go_order witness = [2; 1].
-Proof. vm_compute. split; reflexivity. Qed.
+Lemma init_order_old_refuted : sc_order_old witness = [1; 2] /\ go_order witness = [2; 1] /\ sc_order witness = [2; 1].
+Proof. vm_compute. repeat split; reflexivity. Qed.
 
 Example init_order_agree_nonvacuous :
-  let p := {| vars := [(1, [2; 10]); (2, [3]); (3, [])]; funcs := [(10, [11]); (11, [])] |} in
-  go_order p = [3; 2; 1] /\ sc_order p = [3; 2; 1].
-Proof. vm_compute. split; reflexivity. Qed.
+  let p := {| vars := [(1, [2; 10]); (2, [3]); (3, [12]); (4, [])]; funcs := [(10, [11]); (11, [10; 4]); (12, [12])] |} in
+  well_named p /\ go_order p = [3; 2; 4; 1] /\ sc_order p = [3; 2; 4; 1] /\ sc_order_old p = [3; 2; 1; 4].
+Proof.
+  cbv zeta. split; [|vm_compute; repeat split; reflexivity].
+  split.
+  - intros v d Hv Hd. cbn in Hv.
+    repeat (destruct Hv as [<-|Hv]; [cbn in Hd; repeat (destruct Hd as [<-|Hd]; [vm_compute; auto|]); destruct Hd|]); destruct Hv.
+  - intros d. unfold is_var, is_func, mem. cbn [vars funcs map fst existsb].
+    intros H. repeat (apply orb_true_iff in H; destruct H as [H|H]; [apply N.eqb_eq in H; subst; reflexivity|]). discriminate.
+Qed.
